@@ -488,12 +488,35 @@ func startSQLBuild(run *vh.Run, repo string) *sqlBuild {
 					if os.WriteFile(tmp, data, 0o755) == nil {
 						os.Rename(tmp, cached)
 					}
+					pruneSQLCache(cache, 6)
 				}
 			}
 		}
 		close(b.done)
 	}()
 	return b
+}
+
+// pruneSQLCache keeps the newest `keep` cached binaries.
+func pruneSQLCache(cache string, keep int) {
+	ents, err := os.ReadDir(cache)
+	if err != nil {
+		return
+	}
+	type ent struct {
+		name string
+		t    time.Time
+	}
+	var l []ent
+	for _, e := range ents {
+		if info, err := e.Info(); err == nil && e.IsDir() {
+			l = append(l, ent{e.Name(), info.ModTime()})
+		}
+	}
+	sort.Slice(l, func(i, j int) bool { return l[i].t.After(l[j].t) })
+	for i := keep; i < len(l); i++ {
+		os.RemoveAll(filepath.Join(cache, l[i].name))
+	}
 }
 
 func sqlScenarios(run *vh.Run) []sqlScenario {
